@@ -37,7 +37,7 @@ class Plan(object):
     pass
 
 
-def analyse(roots, resolved):
+def analyse(roots, resolved, records=()):
     """zone marking with `resolved` nodes (id -> var) treated as frontier leaves"""
     order = topo_view(roots, resolved)
     zone = {}
@@ -70,6 +70,9 @@ def analyse(roots, resolved):
             for a in t.args:
                 if not zone[a.id] and a.op != 'const':
                     frontier[a.id] = a
+    for t in records:
+        if t.op != 'const' and t.id not in resolved:
+            frontier[t.id] = t
     return order, zone, frontier
 
 
@@ -538,7 +541,7 @@ class CubeSpace(object):
         return idx[::-1]
 
 
-def tabulate(assumptions, roots, tables, log, use_z3=True, workers=16, solver='z3', limit=LIMIT, extras=(), special=None):
+def tabulate(assumptions, roots, tables, log, use_z3=True, workers=16, solver='z3', limit=LIMIT, extras=(), records=(), special=None):
     """Decide that every root (a Bool 'violation' term) is false for every input
     satisfying the assumptions.  Returns a report dict."""
     t_start = time.time()
@@ -551,14 +554,18 @@ def tabulate(assumptions, roots, tables, log, use_z3=True, workers=16, solver='z
     wnodes = []         # the node ids they stand for
     wtuples = [()]
     wwitness = {(): []}  # carried tuple -> list of (frontier term, value) constraints of one cube producing it
-    order0, zone0, frontier0 = analyse(roots, {})
+    records = [r for r in records if r.op != 'const']
+    recorded = set()
+    rep['level_records'] = []
+    order0, zone0, frontier0 = analyse(roots + records, {}, records)
     enum = Enumerator(assumptions, list(frontier0.values()), solver)
     level = 0
     group_cache = {}
     try:
         while True:
             level += 1
-            order, zone, frontier = analyse(roots, resolved)
+            pending_rec = [r for r in records if r.id not in recorded]
+            order, zone, frontier = analyse(roots + pending_rec, resolved, pending_rec)
             fterms = [t for t in frontier.values() if t.id not in resolved]
             stages = [t for t in order if t.op == 'stage' and zone[t.id] and t.id not in resolved]
             # innermost stages: no other unresolved stage below
@@ -633,6 +640,12 @@ def tabulate(assumptions, roots, tables, log, use_z3=True, workers=16, solver='z
                 if not outs:
                     rep['inconclusive'].append('staging found no cut')
                     break
+            lvl_fset = set(t.id for i in use_groups for t in groups[i])
+            rec_now = [r for r in records if r.id not in recorded and r.id in lvl_fset]
+            for r in rec_now:
+                recorded.add(r.id)
+            n_main = len(outs)
+            outs = list(outs) + rec_now
             lvl_groups = [groups[i] for i in use_groups]
             lvl_tuples = [gtuples[i] for i in use_groups]
             # which carried values are still needed after this level
@@ -682,6 +695,23 @@ def tabulate(assumptions, roots, tables, log, use_z3=True, workers=16, solver='z
             errs = [(ci, e) for ci, vals, e in results if e]
             for ci, e in errs[:5]:
                 rep['inconclusive'].append('cube %d: %s' % (ci, e))
+            if records or extras:
+                rows = []
+                for ci, vals, e in results:
+                    widx = space.split(ci)[0]
+                    rows.append((ci, widx, vals[:n_main], vals[n_main:]))
+
+                def cons_of(ci, space=space, wtuples=wtuples, wwitness=wwitness, nw=len(wvars), fvars=fvars):
+                    cube = space(ci)
+                    cons = list(wwitness[wtuples[space.split(ci)[0]]])
+                    pos = nw
+                    for (t, fv) in fvars:
+                        cons.append((t, cube[pos]))
+                        pos += 1
+                    return cons
+                rep['level_records'].append({'level': level, 'final': final, 'rec_terms': [r.id for r in rec_now], 'rows': rows,
+                                             'wtuples_in': list(wtuples), 'n_main': n_main, 'cons_of': cons_of, 'keep': None, 'space': space,
+                                             'fterm_ids': [t.id for t, _ in fvars]})
             if final:
                 samples = []
                 fails = []
@@ -712,10 +742,9 @@ def tabulate(assumptions, roots, tables, log, use_z3=True, workers=16, solver='z
                         rep['inconclusive'].append('witness query for failing cube %d: %s' % (ci, st))
                 rep['failures'] = confirmed
                 rep['n_failing_cubes'] = len(fails)
-                if special:
-                    special(rep, results, space, invars, nroots, enum, wwitness, wtuples, wvars, fvars)
                 break
             # next level: distinct output tuples (+ carried values still referenced outside the new cones)
+            outs = outs[:n_main]
             newvars = [TM.var('o%d' % o.id, o.sort) for o in outs]
             for o, v in zip(outs, newvars):
                 resolved[o.id] = v
@@ -723,10 +752,12 @@ def tabulate(assumptions, roots, tables, log, use_z3=True, workers=16, solver='z
             order2 = topo_view(roots, resolved)
             live = set(t.id for t in order2)
             keep = [i for i, nid in enumerate(wnodes) if nid in live]
+            if rep['level_records'] and rep['level_records'][-1]['level'] == level:
+                rep['level_records'][-1]['keep'] = keep
             neww = {}
             for ci, vals, e in results:
                 cube = space(ci)
-                key = tuple(cube[i] for i in keep) + tuple(vals)
+                key = tuple(cube[i] for i in keep) + tuple(vals[:n_main])
                 if key not in neww:
                     idx = space.split(ci)
                     cons = list(wwitness[wtuples[idx[0]]])
@@ -745,6 +776,8 @@ def tabulate(assumptions, roots, tables, log, use_z3=True, workers=16, solver='z
             if len(wtuples) > 20000:
                 rep['inconclusive'].append('too many staged values (%d)' % len(wtuples))
                 break
+        if special and not rep['inconclusive']:
+            special(rep, enum)
     finally:
         rep['allsat_queries'] = enum.queries
         rep['allsat_s'] = round(enum.time, 2)
